@@ -5,7 +5,9 @@ Subject: the executable model `ZV.MC` (Model/MonteCarlo.lean) of the simulation 
 `MonteCarloGFormula.fit`, the same definitions the native driver runs against the real code (gate K).
 Everything is stated for an arbitrary carrier `V` with the plain operations the model uses, for every
 configuration, every baseline row, every draw sequence (`draws : Nat → StepDraw V` is arbitrary: nothing is
-assumed about the RNG), every `t_max` and every sample (`bases` is an arbitrary list).
+assumed about the RNG), every `t_max` and every sample (`bases` is an arbitrary list).  The binders are the model's own
+plain instance binders, so every theorem applies literally to the `Rat` instance the driver executes (core Lean only,
+no Mathlib; `Num01 Rat` is checked below).
 
 Hypotheses, all explicit:
 * `Safe cfg`   — the five loop-owned columns (exposure, outcome, time_in, time_out, 'uncensored') are distinct and
